@@ -7,7 +7,7 @@ INV = ["OneRecordPerTasking", "NoRecordWithoutTasking", "PointingReflectsTasking
 PROPS = ["NonInterference", "CommitAtomic"]
 def cfg(name, T, S, E="E1", ET="AllT", ES="AllS", pol="PolGreedy", nsteps=2, out=1, est=True, ser=False,
         reset=False, squared=False, keep=False, prio_all=False, prune_eq=False, events="NoEvents", dt=1,
-        IT=None, IS=None, faults=False, partial=False, out_dt=None, interf=False, live=False, span=None):
+        IT=None, IS=None, faults=False, partial=False, out_dt=None, interf=False, live=False, span=None, lastmerge=False):
     B = lambda b: "TRUE" if b else "FALSE"
     txt = f"""SPECIFICATION {'FairSpec' if live else 'Spec'}
 CONSTANTS
@@ -34,6 +34,8 @@ CONSTANTS
   PruneKeepsEqual = {B(prune_eq)}
   PartialCommit = {B(partial)}
   UpdateTouchesTruth = {B(interf)}
+  TRank <- RankT
+  LastMergeWins = {B(lastmerge)}
 """ + "".join(f"INVARIANT {i}\n" for i in INV) + "".join(f"PROPERTY {p}\n" for p in PROPS + (["RunCompletes"] if live else []))
     Path(__file__).resolve().parent.parent.joinpath("spec", f"MCResonaate_{name}.cfg").write_text(txt)
 cfg("greedy22", "T2", "S2")
@@ -47,6 +49,7 @@ cfg("greedy32", "T3", "S2", nsteps=1)
 cfg("random23", "T2", "S3", pol="PolRandom", nsteps=1)
 cfg("truthonly", "T2", "S2", est=False, nsteps=3, out=2, faults=True)
 cfg("faults", "T1", "S1", nsteps=3, out=2, faults=True)
+cfg("coded_lastmerge", "T2", "S2", pol="PolAllVisible", lastmerge=True)
 cfg("coded_reset", "T2", "S2", reset=True)
 cfg("coded_squared", "T2", "S2", squared=True)
 cfg("coded_keep", "T2", "S2", keep=True)
